@@ -192,6 +192,9 @@ def run(ctx):
     ctx.rule("R05.i", "in every @contextmanager, each write to object state (attribute/subscript store) made after the yield on the normal way out is also made on the way out of a failing body", floor=5)
     ctx.rule("R05.g", "a self-resetting Event is reset even when a watcher raises during the assignment: in Event.__set__ the reset is passed on the exceptional exit of super().__set__", floor=1)
     ctx.rule("R05.h", "a failing flush leaves no events behind: every exceptional exit of the flush passes a reset of both queues", floor=1)
+    ctx.rule("R05.s", "setter model: Parameter.__set__ interpreted abstractly on every combination (576) of route x constant/readonly x validation outcome x identity x reference mode x watchers x "
+                      "batching: everything an assignment does besides notifying (store, link install/drop, post_setter, dependency rebinding) precedes the first watcher, so a watcher that "
+                      "raises cannot leave the assignment half applied", floor=1)
     ctx.rule("R05.m", "update model: Parameters._update interpreted abstractly (entry batching flag x key orders incl. an Event key x a rejected or unknown key at every position x a value identical to the current one, 60 cases): flag restored, flush exactly once iff outermost and after the restore, keys applied in order up to the failing one, Event mode and reset, complete previous-values mapping", floor=1)
     ctx.rule("R05.t", "trigger model: Parameters.trigger interpreted abstractly (instance/class x names incl. an Event and an unknown name x an event and a watcher queued before x the update dispatches / queues / raises, 96 cases): update runs once, with the trigger flag raised and the parked queues empty, on the current values; on exit the flag is lowered, earlier queue entries survive, no watcher is queued twice; the write-back is inside a _syncing scope", floor=1)
     ctx.not_decided += ["that later dispatch equals that of a fresh object (behavioural equivalence)",
@@ -325,6 +328,8 @@ def run(ctx):
     class_cm_restores(ctx, "R05.w")
     from checks.shared import event_model
     event_model(ctx, "R05.y", "C05")
+    from checks import setter_model
+    setter_model.report(ctx, "C05", "R05.s")
     from checks import update_model
     update_model.report(ctx, "C05", "R05.m")
     from checks import trigger_model
